@@ -638,6 +638,11 @@ class StmtMixin:
         ca = self.site_asserts(c.qualname, node) + self.site_asserts(c.name, node) if c.name != c.qualname else self.site_asserts(c.name, node)
         if ca and not self.pure:
             aenv = self.E.Env(parent=env)
+            for pk in cenv.vars:
+                # a caller variable that a callee parameter of the same name shadows stays reachable as caller_<name>
+                cv = env.lookup(pk)
+                if cv is not None:
+                    aenv.vars["caller_" + pk] = cv
             aenv.vars.update(cenv.vars)
             for cl in ca:
                 t = sub.truth(sub.ev(ast.parse(cl, mode="eval").body, aenv))
